@@ -13,6 +13,55 @@ def translate(chk):
     return c18.translate(chk)
 
 
+def translate_circular(chk):
+    import os
+    import circular as trc
+    import pyir
+    try:
+        text, f = trc.emit(common.REPO)
+    except (pyir.TranslationError, SyntaxError, OSError) as e:
+        chk.tie_broken("translate/circular.py", f"exact-form check refused circular.py: {e}")
+        return None
+    common.write_if_changed(os.path.join(common.GEN, "Gen_Circular.v"), text)
+    return f
+
+
+def circular_oracle(chk, f):
+    """theories/Model_Circular.v with the exponent ranges read from the source, evaluated here in Python, against the real q / dqdr / dpsidr_r /
+    d2psidr2_r; and the theorems' statements on the implementation: dqdr and d2psidr2_r against Richardson differences of q and dpsidr_r"""
+    import random
+    rng = random.Random(chk.seed + 77)
+    cases = [dict(coefs=[round(rng.uniform(1.0, 3.0), 3)] + [round(rng.uniform(0.2, 3.0), 3) for _ in range(k)], r=[rng.uniform(0.05, 0.45) for _ in range(6)])
+             for k in (0, 1, 1, 1)]      # (the class supports one or two coefficients)
+    rc, res, o, e = common.run_impl_json("impl/circular.py", dict(cases=cases), timeout=300)
+    if res is None:
+        chk.tie_broken("impl/circular.py", f"rc={rc}: {(o + e)[-800:]}")
+        return 0
+    n = 0
+    for c, d in zip(cases, res):
+        if "error" in d:
+            chk.tie_broken("impl/circular.py:case", d["error"])
+            continue
+        cs, R0, B0 = c["coefs"], d["R0"], d["B0"]
+        q = lambda x: sum(a * x ** (f["q_start"] + f["q_step"] * k) for k, a in enumerate(cs))
+        dq = lambda x: 0.0 if len(cs) == 1 else sum(a * (f["dq_start"] + f["dq_step"] * k) * x ** (f["dq_start"] + f["dq_step"] * k - 1) for k, a in enumerate(cs[f["dq_skip"]:]))
+        dps = lambda x: B0 * x / (np.sqrt(1 - x**2 / R0**2) * q(x))
+        rich = lambda fun, x, h=1e-4: (4 * (fun(x + h / 2) - fun(x - h / 2)) / h - (fun(x + h) - fun(x - h)) / (2 * h)) / 3
+        for i, x in enumerate(c["r"]):
+            n += 1
+            model = dict(q=q(x), dqdr=dq(x), dpsidr_r=dps(x),
+                         d2psidr2_r=B0 / (np.sqrt(1 - x**2 / R0**2) * q(x)) + B0 * x**2 / (R0**2 * (1 - x**2 / R0**2) ** 1.5 * q(x)) - B0 * x * dq(x) / (np.sqrt(1 - x**2 / R0**2) * q(x) ** 2))
+            for k_, v in model.items():
+                if abs(d[k_][i] - v) > 1e-12 * max(1.0, abs(v)):
+                    chk.tie_broken("model:circular", f"Model_Circular ({k_}) and the implementation differ for q_coefficients={cs} at r={x}: {d[k_][i]} vs {v}")
+            # the property's side: the functions used as derivatives ARE derivatives
+            if abs(d["dqdr"][i] - rich(q, x)) > 1e-7 * max(1.0, abs(rich(q, x))):
+                chk.fail("circular:dqdr-not-derivative-of-q", "CircularEquilibrium.dqdr is not the derivative of q", {"q_coefficients": cs, "r": x, "dqdr": d["dqdr"][i], "finite_difference": rich(q, x)})
+            if abs(d["d2psidr2_r"][i] - rich(dps, x)) > 1e-7 * max(1.0, abs(rich(dps, x))):
+                chk.fail("circular:d2psidr2-not-derivative", "CircularEquilibrium.d2psidr2_r is not the derivative of dpsidr_r", {"q_coefficients": cs, "r": x, "d2psidr2": d["d2psidr2_r"][i], "finite_difference": rich(dps, x)})
+    return n
+
+
 class Field:
     """independent evaluation of B/B^2 and its curl from the inputs of a corpus grid (own splines, Richardson differences)"""
 
@@ -79,6 +128,7 @@ class CircField(Field):
 
 def run(chk):
     tr18 = c18.translate(chk)
+    fc = translate_circular(chk)
     chk.trust("translate/fields.py (closures of calc_curvature and the helper chain)",
               "CONTRACT: the interpolant's derivative evaluators are partial derivatives of one psi (as C18)",
               "grid oracle: curl(B/B^2) recomputed from the grid's inputs with independent splines and Richardson differences; grad(y) from the grid's own displacements (duality) on non-orthogonal grids")
@@ -87,6 +137,7 @@ def run(chk):
     # the ingredients: the theorems take the helper chain (second derivatives of psi, dB*/d*, fpolprime) as the derivatives of their primitives --
     # that contract is monitored here too (both interpolation methods, dR != dZ), so that a wrong ingredient is reported with a concrete input
     c18.field_oracle(c18.Prefixed(chk, "ingredient:"), tr18)
+    ncirc = circular_oracle(chk, fc) if fc else 0
     # a circular equilibrium whose safety factor varies with radius (q = 1.5 + 2 r^2): the second derivatives of psi involve dq/dr
     extra = [dict(name="circ_q2", kind="circular", options=dict(number_of_processors=1, nx_core=4, ny_total=8, q_coefficients=[1.5, 2.0]), must_build=True)]
     grids = {g.name: g for g in corpus.get(tier=chk.tier, extra_cfgs=extra) if g.ok}
@@ -227,6 +278,7 @@ def run(chk):
                     if corr < 0.5:
                         chk.fail(f"curvature_type-disagree:{comp}:bpsign={int(ra['bpsign']):+d}", f"the x-y-derivative formulation of curl_bOverB_{comp} does not agree with the R-Z formulation on an orthogonal grid (sign/scale)",
                                  {"grids": [a, b], "region": ra["name"], "normalised_correlation": corr, "RZ_sample": va[inner].ravel()[:3].tolist(), "xy_sample": vb[inner].ravel()[:3].tolist()})
+    n += ncirc
     chk.count(evaluations=n, distinct=n)
     chk.cov["rule"] = "every centre / ylow point of every region of the spline-interpolated tokamak corpus grids (orthogonal and non-orthogonal, both signs of psi, non-constant fpol); the two curvature_type formulations on lsn / lsn_neg"
     chk.notes["worst_relative_error"] = worst
